@@ -14,7 +14,7 @@ PROPERTY = "C07"
 LEVEL = "exploration"
 NEEDS = ("rust",)
 EXHAUSTIVE = {"quick": False, "thorough": False}
-REQUIRED_MONITORS = ["py_history_differential", "rust_history_differential", "py_split_run", "rust_split_run",
+REQUIRED_MONITORS = ["py_history_differential", "py_same_address_twin", "rust_history_differential", "py_split_run", "rust_split_run",
                      "rust_thread_stress", "fresh_process_determinism"]
 RULE = ("(1) every sampled accepted head is executed from a FRESH core and again on a long-lived core that has already "
         "executed every previous case of the shard (arbitrary history), with TEMP0-13 poisoned (seeded + boundary values), "
@@ -78,7 +78,8 @@ class HistoryCore:
             regs.set(RegisterName[n], r[n])
         regs.set(RegisterName.F, (r.get("FHI", 0) & 0xFC) | r["FC"] | (r["FZ"] << 1))
         regs.set(RegisterName.PC, case["addr"])
-        emu.state.halted = False
+        # (emu.state.halted is deliberately NOT reset: the statement counts only registers, flags and memory as inputs, so
+        #  a low-power flag left by an earlier HALT/OFF is history that must not change what the next instruction does)
         if temps:
             for i, v in temps.items():
                 regs.set(RegisterName[f"TEMP{i}"], v)
@@ -119,12 +120,39 @@ def run_hist(spec, res: Result):
         fresh = pyexec.run_case(case)
         if "exc" in fresh and str(fresh.get("name", "")).startswith("???"):
             continue
+        # same address, same leading bytes, different LAST byte executed just before: any decode cache keyed by the
+        # address and a prefix of the bytes would replay the twin (self-modifying operand / patched page byte)
+        # (must come BEFORE the case itself is first executed at this address on the long-lived core)
+        if case["len"] >= 2 and "exc" not in fresh and (spec["tier"] == "thorough" or case["len"] >= 4 or n % 4 == 0):
+            raw = bytearray(bytes.fromhex(case["bytes"]))
+            L = case["len"]
+            for flip in (0x01, 0x10, 0x80):
+                tw = bytearray(raw)
+                tw[L - 1] ^= flip
+                twin = dict(case, bytes=bytes(tw).hex())
+                tfresh = pyexec.run_case(twin)
+                if "exc" in tfresh or tfresh.get("len", L) != L:
+                    continue
+                core.run(twin)
+                again = core.run(case)
+                res.monitor("py_same_address_twin")
+                a2, b2_ = arch_out(fresh), arch_out(again)
+                if not isinstance(b2_[0], str) and not a2[4] and b2_[4]:
+                    b2_ = b2_[:4] + (False,) + b2_[5:]
+                if a2 != b2_:
+                    res.violation({"clause": "stale_decode_after_code_change", "core": "python", "op": f"{case['opc']:02X}"},
+                                  _slim(case), {"twin_bytes": bytes(tw[:L]).hex(), "fresh": repr(a2)[:300],
+                                                "after_twin": repr(b2_)[:300]})
+                break
         temps = {i: r.choice(BVALS + [r.randrange(1 << 24)]) for i in range(14)} if n % 2 == 0 else None
         core.emu.regs.call_sub_level = r.randrange(0, 5)
         hist = core.run(case, temps)
         res.monitor("py_history_differential")
         res.nontrivial("py", case["pfx"], case["op"], case["b2"], n)
         a, b = arch_out(fresh), arch_out(hist)
+        if not isinstance(a[0], str) and not isinstance(b[0], str) and not a[4] and b[4]:
+            # a low-power flag still set from an earlier HALT/OFF of the history is not an effect of THIS instruction
+            b = b[:4] + (False,) + b[5:]
         if a != b:
             res.violation({"clause": "history_changes_result", "core": "python", "op": f"{case['opc']:02X}"},
                           _slim(case), {"fresh": repr(a)[:300], "after_history": repr(b)[:300], "position": n})
